@@ -205,6 +205,12 @@ func (r *Run) Finish() int {
 	for k, v := range r.Extra {
 		cov[k] = v
 	}
+	if r.Assumptions == nil {
+		r.Assumptions = []string{"in-process engine is observationally equal to the unmodified binary (validated on a seed-rotated slice and on every candidate)"}
+	}
+	if r.Samples == nil {
+		r.Samples = []any{}
+	}
 	if len(r.Outcomes) <= 1 && r.Evaluations > 1 {
 		cov["vacuous"] = true
 	}
